@@ -619,7 +619,10 @@ def _len_root(ex, e, depth=0):
     return None
 
 
-def _place_key(e):
+def _place_key(e, root=None):
+    """(root local id, field path) of a place; with `root` (a function body) let-bound aliases of a place are resolved first."""
+    if root is not None:
+        e = U.resolve_place(root, e)
     e = H.peel(e)
     while e.get("k") == "mcall" and e["name"] in ("iter", "into_iter", "iter_mut") and not e["args"]:
         e = H.peel(e["recv"])
@@ -649,7 +652,7 @@ def _count_matches(ex, rep):
     node = rep["node"]
     over = U.rep_iter(node, rep)
     if cnt.get("len_of") is not None:
-        return (_place_key(cnt["len_of"]) == _place_key(over)), "write_slice size closure must write the slice length it is given"
+        return (_place_key(cnt["len_of"], ex.fn["body"]) == _place_key(over, ex.fn["body"])), "write_slice size closure must write the slice length it is given"
     arg = H.peel(cnt["len"], tries=True)
     if rep.get("filtered"):
         l = H.local_of(arg)
@@ -668,7 +671,7 @@ def _count_matches(ex, rep):
                 only_iter = True
                 while base.get("k") == "mcall" and base["name"] in ("iter", "into_iter"):
                     base = H.peel(base["recv"])
-                return (fld == rep["filtered"] and _place_key(base) == _place_key(over)), \
+                return (fld == rep["filtered"] and _place_key(base, ex.fn["body"]) == _place_key(over, ex.fn["body"])), \
                     "count must be the number of elements of the iterated collection with `%s` present (found filter on `%s`)" % (rep["filtered"], fld)
         if not l:
             return False, "filtered loop needs a counted local"
@@ -685,14 +688,14 @@ def _count_matches(ex, rep):
             for n, ps in H.walk_with_parents(ex.fn["body"]):
                 if n is incs[0]:
                     for q in ps:
-                        if U.rep_iter(q) is not None and _place_key(U.rep_iter(q)) == _place_key(over):
+                        if U.rep_iter(q) is not None and _place_key(U.rep_iter(q), ex.fn["body"]) == _place_key(over, ex.fn["body"]):
                             same_coll = True
         init = H.let_init_of(ex.fn["body"], l[0])
         zero = init is not None and H.const_value(init) == 0
         return (ok and fld == rep["filtered"] and same_coll and zero), \
             "count `%s` must count exactly the elements with `%s` present in the same collection (found filter on `%s`)" % (l[1], rep["filtered"], fld)
     if arg.get("k") == "mcall" and arg["name"] == "len":
-        return (_place_key(arg["recv"]) == _place_key(over)), "count is %s.len() but the loop iterates %s" % (H.render(arg["recv"]), H.render(over))
+        return (_place_key(arg["recv"], ex.fn["body"]) == _place_key(over, ex.fn["body"])), "count is %s.len() but the loop iterates %s" % (H.render(arg["recv"]), H.render(over))
     return False, "count expression %s is not the length of the iterated collection" % H.render(arg)
 
 
@@ -813,7 +816,7 @@ def r02_2_3(cx, R, S):
 def _len_key(ex, e):
     e = H.peel(e, casts=True, tries=True)
     if e.get("k") == "mcall" and e["name"] == "len":
-        return _place_key(e["recv"])
+        return _place_key(e["recv"], ex.fn["body"])
     l = H.local_of(e)
     if l:
         init = H.let_init_of(ex.fn["body"], l[0])
@@ -825,7 +828,7 @@ def _len_key(ex, e):
 def _bytes_key(ex, it):
     if it.get("i") == "splice":
         return (it["buf"], ())
-    return _place_key(it["arg"])
+    return _place_key(it["arg"], ex.fn["body"])
 
 
 # ===================================================================================================== R02.4
@@ -2433,6 +2436,49 @@ class EvalLabels(T.Evaluator):
         return super().call(n, c, args, env)
 
 
+def _whole_value(root, e, depth=0):
+    """`e` with value-preserving wrappers removed: references, `x[..]`, `.as_slice()` / `.as_ref()`, and let-bound immutable locals
+    replaced by their initialiser."""
+    e = H.peel(e)
+    if depth > 6:
+        return e
+    if e.get("k") == "index" and H.peel(e["i"]).get("k") == "struct" and (H.peel(e["i"]).get("adt") or "").endswith("RangeFull"):
+        return _whole_value(root, e["e"], depth + 1)
+    if e.get("k") == "mcall" and e["name"] in ("as_slice", "as_ref", "borrow") and not e["args"]:
+        return _whole_value(root, e["recv"], depth + 1)
+    l = H.local_of(e)
+    if l:
+        let = next((n for n in H.walk(root) if n.get("k") == "let" and "init" in n and n["pat"].get("k") == "bind" and n["pat"]["id"] == l[0]), None)
+        if let is not None and "mut" not in (let["pat"].get("mode") or "").split() and not _assigned(root, l[0]):
+            return _whole_value(root, let["init"], depth + 1)
+    return e
+
+
+def _assigned(root, lid):
+    for n in H.walk(root):
+        if n.get("k") in ("assign", "assignop") and H.local_of(n["l"]) and H.local_of(n["l"])[0] == lid:
+            return True
+        if n.get("k") == "ref" and n.get("mut") and H.local_of(n["e"]) and H.local_of(n["e"])[0] == lid:
+            return True
+    return False
+
+
+def _iterates(root, e, sid, depth=0):
+    """`e` yields the elements of local `sid` in order, each once: `sid`, `sid.iter()`, `sid.into_iter()`, or a local bound to one of these
+    that is used nowhere else (so nothing was consumed from it before)."""
+    e = H.peel(e)
+    while e.get("k") == "mcall" and e["name"] in ("iter", "into_iter", "by_ref") and not e["args"]:
+        e = H.peel(e["recv"])
+    l = H.local_of(e)
+    if not l or depth > 3:
+        return False
+    if l[0] == sid:
+        return True
+    uses = [n for n in H.walk(root) if n.get("k") == "path" and n["res"].get("r") == "local" and n["res"].get("id") == l[0]]
+    init = H.let_init_of(root, l[0])
+    return init is not None and len(uses) == 1 and _iterates(root, init, sid, depth + 1)
+
+
 class EvalChecked(T.Evaluator):
     """Evaluates a `write_usize_as_<t>` primitive for one outcome (Ok / Err) of the checked conversion `<t>::try_from(param)` /
     `param.try_into()`. The converted value is the opaque token MARK; a cast to another type makes a value opaque (not the token)."""
@@ -2532,13 +2578,14 @@ def r02_labels_prims(cx, R, S):
         if not R.anchor("R02.1", "fn ClassWrite::write_" + t, fb):
             continue
         pid = H.pat_bindings(fb["params"][1])[0][0]
-        calls = [n for n in H.walk(fb["body"]) if n.get("k") == "mcall" and n["name"] == "write_u8_slice"]
+        calls = [n for n in H.walk(fb["body"]) if H.callee_name(n) == "write_u8_slice" and n.get("k") in ("mcall", "call")]
         ok = False
         got = None
         if len(calls) == 1:
-            a = H.peel(calls[0]["args"][0])
+            a = _whole_value(fb["body"], H.call_args(calls[0])[-1])
             got = H.render(a)
-            if a.get("k") == "mcall" and a["name"] == "to_be_bytes" and H.local_of(a["recv"]) and H.local_of(a["recv"])[0] == pid:
+            if H.callee_name(a) == "to_be_bytes" and a.get("k") in ("mcall", "call") and len(H.call_args(a)) == 1 and \
+                    H.local_of(_whole_value(fb["body"], H.call_args(a)[0])) and H.local_of(_whole_value(fb["body"], H.call_args(a)[0]))[0] == pid:
                 ok = fb["inputs"][1] == t
             elif t == "u8" and a.get("k") == "array" and len(a["es"]) == 1 and H.local_of(a["es"][0]) and H.local_of(a["es"][0])[0] == pid:
                 ok = fb["inputs"][1] == t
@@ -2576,24 +2623,26 @@ def r02_labels_prims(cx, R, S):
         got = None
         if len(calls.get(ids[2], [])) == 1 and len(calls.get(ids[3], [])) == 1:
             (sz, szp), (el, elp) = calls[ids[2]][0], calls[ids[3]][0]
-            a_ = H.peel(sz["args"][1]) if len(sz["args"]) > 1 else {}
+            a_ = _whole_value(ws["body"], sz["args"][1]) if len(sz["args"]) > 1 else {}
             lenok = a_.get("k") == "mcall" and a_["name"] == "len" and H.local_of(a_["recv"]) and H.local_of(a_["recv"])[0] == ids[1]
-            # the element call runs once per element of `slice`, in order: inside `for .. in slice` or in the closure of an in-order,
-            # short-circuiting iterator consumer over slice.iter()
+            # the element call runs once per element of `slice`, in order: inside `for .. in slice`, in the closure of an in-order,
+            # short-circuiting iterator consumer over slice.iter(), or in `while let Some(v) = it.next()` with `it = slice.iter()`
             per_elem = False
             for q in reversed(elp):
                 if q.get("k") == "for":
-                    r_ = H.recv_root(q["iter"])
-                    per_elem = bool(r_ and r_[0] == ids[1])
+                    per_elem = _iterates(ws["body"], q["iter"], ids[1])
                     break
-                if q.get("k") == "mcall" and q["name"] in ("try_for_each",) and any(x is el for a2 in q["args"] for x in H.walk(a2)):
-                    r_ = H.recv_root(q["recv"])
-                    adapters = []
-                    e_ = H.peel(q["recv"])
-                    while e_.get("k") == "mcall":
-                        adapters.append(e_["name"])
-                        e_ = H.peel(e_["recv"])
-                    per_elem = bool(r_ and r_[0] == ids[1]) and set(adapters) <= {"iter", "into_iter"}
+                if q.get("k") == "mcall" and q["name"] in ("try_for_each", "for_each") and U.iter_closure(q) is not None and \
+                        any(x is el for x in H.walk(U.iter_closure(q))):
+                    per_elem = _iterates(ws["body"], q["recv"], ids[1])
+                    break
+                if q.get("k") == "loop":
+                    t_ = U._tail_expr(q["body"]) or {}
+                    c_ = H.peel(t_["cond"], refs=False) if t_.get("k") == "if" else {}
+                    if q.get("src") == "While" and c_.get("k") == "letexpr" and (H.pat_variant(c_["pat"]) or (None, None))[1] == "Some":
+                        i_ = H.peel(c_["init"])
+                        if i_.get("k") == "mcall" and i_["name"] == "next" and not i_["args"] and any(x is el for x in H.walk(t_["then"])):
+                            per_elem = _iterates(ws["body"], i_["recv"], ids[1])
                     break
             # neither result may be dropped: `?`, returned, or inspected for Err
             def propagated(n, ps):
